@@ -287,6 +287,164 @@ Section Commute.
   Proof. exact (commute_inner (fun _ _ => true)). Qed.
 End Commute.
 
+(* ---------- l-asscom with full outer joins (conditional entries of the tables) ---------- *)
+Lemma c01_existsb_ext {A} (f g : A -> bool) l : (forall x, f x = g x) -> existsb f l = existsb g l.
+Proof. intros H. induction l as [|a l IH]; cbn; [reflexivity|]. rewrite H, IH. reflexivity. Qed.
+
+Lemma c01_existsb_flat_map {X Y} (p : Y -> bool) (f : X -> list Y) l :
+  existsb p (flat_map f l) = existsb (fun x => existsb p (f x)) l.
+Proof. induction l as [|a l IH]; cbn; [reflexivity|]. rewrite existsb_app, IH. reflexivity. Qed.
+
+Lemma c01_existsb_const {X} (b : bool) (l : list X) : l <> [] -> existsb (fun _ => b) l = b.
+Proof.
+  destruct l as [|x l]; [congruence|]. intros _. cbn. destruct b; [reflexivity|]. cbn.
+  induction l; cbn; auto.
+Qed.
+
+Lemma c01_existsb_false {X} (l : list X) : existsb (fun _ => false) l = false.
+Proof. induction l; cbn; auto. Qed.
+
+Lemma c01_flat_map_single {X Y} (f : X -> Y) l : flat_map (fun x => [f x]) l = map f l.
+Proof. induction l; cbn; congruence. Qed.
+
+Section LasscomFull.
+  Context {A1 A2 A3 : Type}.
+  Variables (e1 : list A1) (e2 : list A2) (e3 : list A3).
+  Variables (q12 : option A1 -> option A2 -> bool) (q13 : option A1 -> option A3 -> bool).
+  Notation T := (@T A1 A2 A3).
+  Notation L1 := (map (@lift1 A1 A2 A3) e1).
+  Notation L2 := (map (@lift2 A1 A2 A3) e2).
+  Notation L3 := (map (@lift3 A1 A2 A3) e3).
+
+  Lemma sel_pres_nonempty {X} o (q : X -> bool) r : o = LeftJ \/ o = Full -> sel o q r <> [].
+  Proof. intros [-> | ->]; unfold sel; destruct (filter q r); cbn; discriminate. Qed.
+
+  (* the product part common to both trees, for any operators *)
+  Lemma lasscom_core A B :
+    Permutation (flat_map (ext B (on13 q13) L3) (flat_map (ext A (on12 q12) L2) L1))
+                (flat_map (ext A (on12 q12) L2) (flat_map (ext B (on13 q13) L3) L1)).
+  Proof.
+    rewrite !c01_flat_map_flat_map, !c01_flat_map_map.
+    apply c01_perm_flat_map_pw. intros a. unfold lift1.
+    rewrite ext_slot2, ext_slot3, !c01_flat_map_map.
+    erewrite flat_map_ext; [|intros oy; rewrite ext_slot3; reflexivity].
+    erewrite (flat_map_ext (fun x => ext A _ _ _)); [|intros oz; rewrite ext_slot2; reflexivity].
+    unfold on12, on13, c1, c2, c3. cbn [fst snd].
+    apply (c01_prod_swap (fun oy oz => (Some a, oy, oz))).
+  Qed.
+
+  Definition U3 : list A3 := filter (fun z => negb (existsb (fun a => q13 (Some a) (Some z)) e1)) e3.
+  Definition U2 : list A2 := filter (fun y => negb (existsb (fun a => q12 (Some a) (Some y)) e1)) e2.
+
+  Lemma unmatched3_base : unmatched_right (on13 q13) L1 L3 = map lift3 U3.
+  Proof.
+    unfold unmatched_right, U3. rewrite c01_filter_map. f_equal. apply c01_filter_ext. intros z.
+    rewrite c01_existsb_map. reflexivity.
+  Qed.
+
+  Lemma unmatched2_base : unmatched_right (on12 q12) L1 L2 = map lift2 U2.
+  Proof.
+    unfold unmatched_right, U2. rewrite c01_filter_map. f_equal. apply c01_filter_ext. intros y.
+    rewrite c01_existsb_map. reflexivity.
+  Qed.
+
+  (* e3 rows unmatched by e1 stay exactly the unmatched ones of (e1 A e2) when A preserves e1; extra tuples
+     with an empty slot 1 never match when q13 rejects NULLs on e1 *)
+  Lemma unmatched3_through A (extra : list A2) : A = LeftJ \/ A = Full -> (extra = [] \/ rejects_l q13) ->
+    unmatched_right (on13 q13) (flat_map (ext A (on12 q12) L2) L1 ++ map lift2 extra) L3 = map lift3 U3.
+  Proof.
+    intros HA HX. unfold unmatched_right, U3. rewrite c01_filter_map. f_equal. apply c01_filter_ext. intros z.
+    f_equal. rewrite existsb_app.
+    assert (E2 : existsb (fun t => on13 q13 (merge t (lift3 z))) (map lift2 extra) = false).
+    { destruct HX as [-> | HR]; [reflexivity|]. rewrite c01_existsb_map.
+      rewrite (c01_existsb_ext _ (fun _ => false)); [apply c01_existsb_false|].
+      intros y. unfold on13, merge, lift2, lift3, c1, c2, c3. cbn. apply HR. }
+    rewrite E2, orb_false_r.
+    rewrite c01_existsb_flat_map, c01_existsb_map. apply c01_existsb_ext. intros a. unfold lift1.
+    rewrite ext_slot2, c01_existsb_map.
+    unfold on13, merge, lift3, c1, c2, c3. cbn [fst snd orelse].
+    apply c01_existsb_const. apply sel_pres_nonempty. assumption.
+  Qed.
+
+  Lemma unmatched2_through B (extra : list A3) : B = LeftJ \/ B = Full -> (extra = [] \/ rejects_l q12) ->
+    unmatched_right (on12 q12) (flat_map (ext B (on13 q13) L3) L1 ++ map lift3 extra) L2 = map lift2 U2.
+  Proof.
+    intros HB HX. unfold unmatched_right, U2. rewrite c01_filter_map. f_equal. apply c01_filter_ext. intros y.
+    f_equal. rewrite existsb_app.
+    assert (E2 : existsb (fun t => on12 q12 (merge t (lift2 y))) (map lift3 extra) = false).
+    { destruct HX as [-> | HR]; [reflexivity|]. rewrite c01_existsb_map.
+      rewrite (c01_existsb_ext _ (fun _ => false)); [apply c01_existsb_false|].
+      intros z. unfold on12, merge, lift2, lift3, c1, c2, c3. cbn. apply HR. }
+    rewrite E2, orb_false_r.
+    rewrite c01_existsb_flat_map, c01_existsb_map. apply c01_existsb_ext. intros a. unfold lift1.
+    rewrite ext_slot3, c01_existsb_map.
+    unfold on12, merge, lift2, c1, c2, c3. cbn [fst snd orelse].
+    apply c01_existsb_const. apply sel_pres_nonempty. assumption.
+  Qed.
+
+  (* a padded-only tuple joined (left / full, left part) on a filter that rejects NULLs on e1 stays as it is *)
+  Lemma pass3_through A (l : list A3) : A = LeftJ \/ A = Full -> rejects_l q12 ->
+    flat_map (ext A (on12 q12) L2) (map lift3 l) = map lift3 l.
+  Proof.
+    intros HA HR. rewrite c01_flat_map_map. rewrite <- (c01_flat_map_single (@lift3 A1 A2 A3) l). apply flat_map_ext. intros z.
+    unfold lift3. rewrite ext_slot2. unfold on12, c1, c2. cbn [fst snd].
+    destruct HA as [-> | ->]; cbn [sel]; rewrite (c01_filter_ext _ (fun _ => false)) by (intros; apply HR);
+      rewrite c01_filter_false; reflexivity.
+  Qed.
+
+  Lemma pass2_through B (l : list A2) : B = LeftJ \/ B = Full -> rejects_l q13 ->
+    flat_map (ext B (on13 q13) L3) (map lift2 l) = map lift2 l.
+  Proof.
+    intros HB HR. rewrite c01_flat_map_map. rewrite <- (c01_flat_map_single (@lift2 A1 A2 A3) l). apply flat_map_ext. intros y.
+    unfold lift2. rewrite ext_slot3. unfold on13, c1, c3. cbn [fst snd].
+    destruct HB as [-> | ->]; cbn [sel]; rewrite (c01_filter_ext _ (fun _ => false)) by (intros; apply HR);
+      rewrite c01_filter_false; reflexivity.
+  Qed.
+
+  Lemma unmatched3_through0 A : A = LeftJ \/ A = Full ->
+    unmatched_right (on13 q13) (flat_map (ext A (on12 q12) L2) L1) L3 = map lift3 U3.
+  Proof.
+    intros HA. rewrite <- (unmatched3_through A [] HA (or_introl eq_refl)). cbn [map]. rewrite app_nil_r. reflexivity.
+  Qed.
+
+  Lemma unmatched2_through0 B : B = LeftJ \/ B = Full ->
+    unmatched_right (on12 q12) (flat_map (ext B (on13 q13) L3) L1) L2 = map lift2 U2.
+  Proof.
+    intros HB. rewrite <- (unmatched2_through B [] HB (or_introl eq_refl)). cbn [map]. rewrite app_nil_r. reflexivity.
+  Qed.
+
+  (* (e1 left_12 e2) full_13 e3 = (e1 full_13 e3) left_12 e2   if q12 rejects NULLs on e1 *)
+  Lemma lasscom_left_full : rejects_l q12 ->
+    Permutation (lasscom_lhs e1 e2 e3 LeftJ Full q12 q13) (lasscom_rhs e1 e2 e3 LeftJ Full q12 q13).
+  Proof.
+    intros HR. unfold lasscom_lhs, lasscom_rhs, join. rewrite !app_nil_r.
+    rewrite (unmatched3_through0 LeftJ) by auto.
+    rewrite unmatched3_base, flat_map_app, (pass3_through LeftJ) by auto.
+    apply Permutation_app_tail. apply lasscom_core.
+  Qed.
+
+  (* (e1 full_12 e2) left_13 e3 = (e1 left_13 e3) full_12 e2   if q13 rejects NULLs on e1 *)
+  Lemma lasscom_full_left : rejects_l q13 ->
+    Permutation (lasscom_lhs e1 e2 e3 Full LeftJ q12 q13) (lasscom_rhs e1 e2 e3 Full LeftJ q12 q13).
+  Proof.
+    intros HR. unfold lasscom_lhs, lasscom_rhs, join. rewrite !app_nil_r.
+    rewrite (unmatched2_through0 LeftJ) by auto.
+    rewrite unmatched2_base, flat_map_app, (pass2_through LeftJ) by auto.
+    apply Permutation_app_tail. apply lasscom_core.
+  Qed.
+
+  (* (e1 full_12 e2) full_13 e3 = (e1 full_13 e3) full_12 e2   if q12 and q13 reject NULLs on e1 *)
+  Lemma lasscom_full_full : rejects_l q12 -> rejects_l q13 ->
+    Permutation (lasscom_lhs e1 e2 e3 Full Full q12 q13) (lasscom_rhs e1 e2 e3 Full Full q12 q13).
+  Proof.
+    intros HR2 HR3. unfold lasscom_lhs, lasscom_rhs, join.
+    rewrite unmatched2_base, unmatched3_base, !flat_map_app.
+    rewrite (unmatched3_through Full U2) by auto. rewrite (unmatched2_through Full U3) by auto.
+    rewrite (pass2_through Full) by auto. rewrite (pass3_through Full) by auto.
+    rewrite <- !app_assoc. apply Permutation_app; [apply lasscom_core|apply Permutation_app_comm].
+  Qed.
+End LasscomFull.
+
 (* ---------- (1) the sound table is sound ---------- *)
 Section Sound.
   Context {A1 A2 A3 : Type}.
@@ -310,7 +468,10 @@ Section Sound.
         apply Permutation_refl'. apply assoc_left_left. inversion H; subst. assumption.
     - (* l-asscom *)
       destruct A, B; cbn [sound_table cond_sem]; intros H; try contradiction;
-        cbn [lhs rhs]; apply lasscom_nf; discriminate.
+        cbn [lhs rhs]; try (apply lasscom_nf; discriminate).
+      + apply lasscom_left_full. inversion H; subst. assumption.
+      + apply lasscom_full_left. inversion H; subst. assumption.
+      + inversion H as [|? ? H1 H2]; subst. inversion H2; subst. apply lasscom_full_full; assumption.
     - (* r-asscom *)
       destruct A, B; cbn [sound_table cond_sem]; intros H; try contradiction; cbn [lhs rhs].
       + exact (rasscom_inner e1 e2 e3 (fun _ _ => true) (fun _ _ => true)).
